@@ -139,7 +139,7 @@ PROPS["C05"] = {
 }
 PROPS["C06"] = {
     "lean": ["OlricModel.Props.C06"],
-    "streams": [("repair", (14, 60), (200, 150)), ("cluster", (4, 150), (40, 400))],
+    "streams": [("repair", (14, 60), (200, 150)), ("cluster", (4, 150), (40, 400)), ("rrfail", (6, 0), (40, 0))],
     "model": True,
     "level_text": "Theorems for every set of gathered versions (owner, previous owners, backup owners; arbitrary timestamps, ties, missing and expired copies): the sorted version list is descending and its head carries the maximum timestamp of all live copies, so a successful Get returns a copy with the newest timestamp, which is one of the stored copies (C06_read_newest, C06_winner_is_a_copy, C06_get_returns_newest); merging received tables onto a fragment leaves, for every key, the maximum timestamp of everything delivered, for every arrival order and every repetition (C06_merge_lww, C06_merge_idempotent, C06_mergeEntries; the store-level callback is KV.lww of C11_transfer: C06_store_merge_is_lww); with read-repair on, one Get leaves the owner's copy and every backup owner's copy with the winner's timestamp (C06_read_repair). Tied to the code by the repair stream: copies planted in the fragments, hand-overs delivered through the real DMAP.MOVEFRAGMENT handler, reads through every path, copies read back after every step.",
     "design_ref": "DESIGN.md §6 C06",
